@@ -23,14 +23,17 @@ JudgeP == Clause(Tr[tid]) = "none" \/ PrintT(<<"VIOL", Tr[tid].id, Clause(Tr[tid
 Succ(a) ==
   CASE a = "Check"    -> {"Snapshot", "Check", "Acquire"}
     [] a = "Acquire"  -> {"Check", "Acquire"}                  \* the with-line is visited on entry and on exit
-    [] a = "Snapshot" -> {"Lookup", "UpdField", "UpdAdd", "ClearLocal", "Check", "Acquire"}
+    [] a = "Snapshot" -> {"Lookup", "UpdField", "UpdAdd", "ClearLocal", "PopLoop", "Check", "Acquire"}
     [] a = "Lookup"   -> {"Eval", "Snapshot"}
-    [] a = "Eval"     -> {"Annot", "Pop", "Snapshot"}
-    [] a = "Annot"    -> {"Annot", "Pop", "Snapshot"}
-    [] a = "Pop"      -> {"Snapshot"}
+    [] a = "Eval"     -> {"Annot", "Mark", "Pop", "Snapshot"}
+    [] a = "Annot"    -> {"Annot", "Mark", "Pop", "Snapshot"}
+    [] a = "Mark"     -> {"Snapshot"}
+    [] a = "Pop"      -> {"Snapshot", "PopLoop"}
     [] a = "UpdField" -> {"UpdField", "UpdAdd"}
-    [] a = "UpdAdd"   -> {"ClearLocal", "Check", "Acquire"}
-    [] a = "ClearLocal" -> {"ClearLocal", "Check", "Acquire"}
+    [] a = "UpdAdd"   -> {"ClearLocal", "PopLoop", "Check", "Acquire"}
+    [] a = "ClearLocal" -> {"ClearLocal", "PopLoop", "Check", "Acquire"}
+    [] a = "PopLoop"  -> {"Pop", "Check", "Acquire"}
+    [] a = "Convert"  -> {"Convert"}
     [] a = "Snap"     -> {"CacheChk"}
     [] a = "CacheChk" -> {"CacheRead", "Scan", "Snap", "Replace"}
     [] a = "CacheRead" -> {"Snap", "Replace"}
